@@ -179,6 +179,74 @@ static void run_pure(void)
     }
 }
 
+/* ---- every flat-XOR failure pattern on write-protected inputs: all erasure sets |E|<hd of all 38
+ * tables; fragments guarded once per stripe (read-only, end-pinned against a guard page); payload sizes
+ * chosen so that one stripe is 16-byte aligned (the backend reads and XORs the caller's buffers in
+ * place) and one is not (the front end copies) ---- */
+static void run_pure_xor_exhaustive(void)
+{
+    static cfg_t cfgs[64]; int nc = cfgs_xor(cfgs, 64);
+    for (int ci = 0; ci < nc; ci++) {
+        cfg_t c = cfgs[ci]; c.ct = (ci & 1) ? CHKSUM_NONE : CHKSUM_CRC32;
+        char ck[96]; cfg_key(&c, ck, sizeof ck);
+        int n = c.k + c.m;
+        uint32_t full = (1u << n) - 1;
+        for (int variant = 0; variant < 2; variant++) {
+            uint64_t payload = variant == 0 ? 48 : 36;            /* 80+48 = 128 (aligned when end-pinned); 80+36 = 116 (misaligned) */
+            uint64_t len = payload * (uint64_t)c.k - (variant ? 2 : 0);
+            int desc = -1; stripe_t s; int ok = 0; uint8_t *src = NULL; uint8_t *gf[32] = {0};
+            if (mon_case_all("%s|xor-exhaustive|payload=%llu|setup", ck, (unsigned long long)payload)) {
+                desc = lec_create(&c);
+                if (desc > 0) {
+                    rng_t r; rng_seed(&r, MO.seed, mon_hash_str(ck, payload));
+                    src = malloc(len); rng_fill(&r, src, len);
+                    if (stripe_make(&s, desc, &c, src, len) == 0) {
+                        ok = 1;
+                        for (int i = 0; i < n; i++) { gf[i] = g_alloc(s.flen, G_END); memcpy(gf[i], s.frag[i], s.flen); g_ro(gf[i]); }
+                    } else mon_viol("C15", "encode-failed", "setup encode failed");
+                } else mon_viol("C15", "create-failed", "rc=%d", desc);
+                mon_end();
+            }
+            if (ok) {
+                for (int sz = 1; sz < c.hd; sz++) {
+                    int cb[32]; comb_first(cb, sz);
+                    do {
+                        uint32_t er = mask_of(cb, sz);
+                        char em[96]; mask_str(er, n, em, sizeof em);
+                        if (!mon_case("%s|xor-exhaustive|payload=%llu|E=%s", ck, (unsigned long long)payload, em)) continue;
+                        char *lst[32]; int cnt = 0;
+                        for (int i = 0; i < n; i++) if (!((er >> i) & 1)) lst[cnt++] = (char *)gf[i];
+                        char *out = NULL; uint64_t ol = 0;
+                        int rc = liberasurecode_decode(desc, lst, cnt, s.flen, 0, &out, &ol);
+                        mon_count("evaluations", 1); mon_count("guarded_decodes", 1);
+                        if (rc != 0) mon_viol("C15", "decode-failed", "decode of write-protected fragments returned %d", rc);
+                        else { if (ol != len || memcmp(out, src, len)) mon_viol("C15", "decode-wrong-bytes", "decode of write-protected fragments returned wrong bytes"); liberasurecode_decode_cleanup(desc, out); }
+                        uint8_t *o = malloc(s.flen);
+                        for (int i = 0; i < sz; i++) {
+                            rc = liberasurecode_reconstruct_fragment(desc, lst, cnt, s.flen, cb[i], (char *)o);
+                            mon_count("evaluations", 1); mon_count("guarded_reconstructs", 1);
+                            if (rc != 0 || memcmp(o, s.frag[cb[i]], s.flen)) mon_viol("C15", "reconstruct-wrong", "reconstruct(dest=%d) on write-protected fragments: rc=%d or bytes differ", cb[i], rc);
+                        }
+                        free(o);
+                        for (int i = 0; i < n; i++) if (memcmp(gf[i], s.frag[i], s.flen)) { mon_viol("C15", "input-fragment-modified", "fragment %d changed", i); break; }
+                        mon_distinct("nontrivial", mon_hash_u64(er * 2u + (uint32_t)variant, mon_hash_str(ck, 85)));
+                        mon_count("xor_exhaustive_sets", 1);
+                        mon_end();
+                    } while (comb_next(cb, sz, n));
+                }
+                (void)full;
+            }
+            if (mon_case_all("%s|xor-exhaustive|payload=%llu|teardown", ck, (unsigned long long)payload)) {
+                for (int i = 0; i < n; i++) if (gf[i]) g_free(gf[i]);
+                if (ok) { s.data = NULL; stripe_free(&s); }
+                free(src);
+                if (desc > 0) liberasurecode_instance_destroy(desc);
+                mon_end();
+            }
+        }
+    }
+}
+
 /* ---- threads: the same (config, data) encoded on 8 threads gives the reference bytes ---- */
 typedef struct { cfg_t c; int desc; const uint8_t *src; uint64_t len; int iters; int bad; uint8_t **exp; uint64_t ef; } targ_t;
 static void *tmain(void *a)
@@ -228,7 +296,7 @@ int main(int argc, char **argv)
     mon_init(argc, argv);
     LEC_PROP = MO.prop;
     isal_ok = liberasurecode_backend_available(EC_BACKEND_ISA_L_RS_VAND);
-    if (!strcmp(MO.mode, "threads")) run_threads(); else run_pure();
+    if (!strcmp(MO.mode, "threads")) run_threads(); else { run_pure(); run_pure_xor_exhaustive(); }
     mon_finish();
     return 0;
 }
